@@ -478,3 +478,68 @@ fn c20_serde_newtype_roundtrip() {
 pub fn move_from_raw(raw: u32) -> Move {
     Move(raw)
 }
+
+// ---- the packing, as a spec-level function (the inverse of `view`), and the constructors' contracts as functions -------
+// Callers of the constructors are checked against these (kani::stub) instead of the constructor bodies; that they agree
+// with the real constructors is exactly the C20 obligations above (ctor_post + eq_iff_attributes).
+
+pub fn spec_pack(a: &Attrs) -> Move {
+    let cap = a.capture.map_or(0, kind_u8) as u32;
+    let pro = a.promotion.map_or(0, kind_u8) as u32;
+    Move(
+        kind_u8(a.piece) as u32
+            | (sq_u8(a.origin) as u32) << 4
+            | (sq_u8(a.dest) as u32) << 10
+            | cap << 16
+            | pro << 20
+            | (a.en_passant as u32) << 24
+            | (a.double_pawn as u32) << 25
+            | ((a.castle == Some(Side::Queen)) as u32) << 26
+            | ((a.castle == Some(Side::King)) as u32) << 27
+            | ((a.color == Color::White) as u32) << 28,
+    )
+}
+
+fn attrs_of(piece: PieceIndex, origin: Square, dest: Square, capture: Option<Piece>, promotion: Option<Piece>, ep: bool) -> Attrs {
+    Attrs {
+        color: piece.color(),
+        piece: piece.piece(),
+        origin,
+        dest,
+        capture,
+        promotion,
+        en_passant: ep,
+        castle: None,
+        double_pawn: spec_double(piece.piece(), origin, dest),
+    }
+}
+
+pub fn contract_by_moving(piece: PieceIndex, origin: Square, dest: Square) -> Move {
+    spec_pack(&attrs_of(piece, origin, dest, None, None, false))
+}
+pub fn contract_by_capturing(piece: PieceIndex, origin: Square, dest: Square, capturing: Piece) -> Move {
+    spec_pack(&attrs_of(piece, origin, dest, Some(capturing), None, false))
+}
+pub fn contract_by_promoting(piece: PieceIndex, origin: Square, dest: Square, promotion: Piece) -> Move {
+    spec_pack(&attrs_of(piece, origin, dest, None, Some(promotion), false))
+}
+pub fn contract_by_capture_promoting(piece: PieceIndex, origin: Square, dest: Square, capturing: Piece, promotion: Piece) -> Move {
+    spec_pack(&attrs_of(piece, origin, dest, Some(capturing), Some(promotion), false))
+}
+pub fn contract_by_en_passant(piece: PieceIndex, origin: Square, dest: Square) -> Move {
+    spec_pack(&attrs_of(piece, origin, dest, Some(Piece::Pawn), None, true))
+}
+
+/// the contract functions ARE the constructors (pointwise equal on the whole argument domain), and spec_pack inverts view
+#[kani::proof]
+fn c20_contract_functions_equal_constructors() {
+    let (p, o, d, c, pr) = (any_piece_index(), any_square(), any_square(), any_kind(), any_kind());
+    assert!(Move::by_moving(p, o, d) == contract_by_moving(p, o, d));
+    assert!(Move::by_capturing(p, o, d, c) == contract_by_capturing(p, o, d, c));
+    assert!(Move::by_promoting(p, o, d, pr) == contract_by_promoting(p, o, d, pr));
+    assert!(Move::by_capture_promoting(p, o, d, c, pr) == contract_by_capture_promoting(p, o, d, c, pr));
+    assert!(Move::by_en_passant(p, o, d) == contract_by_en_passant(p, o, d));
+    let m: Move = kani::any();
+    assert!(spec_pack(&view(&m)) == m);
+    kani::cover!(true, "reachable");
+}
